@@ -111,12 +111,31 @@ def normalise_updates(fn):
                 and isinstance(n.value.op, (ast.Add, ast.Sub, ast.Mult)):
             hit = True
             break
+        if isinstance(n, ast.AugAssign) and isinstance(n.op, ast.Add) and isinstance(n.value, ast.List):
+            hit = True
+            break
     if not hit:
         return fn
     import copy
     fn = copy.deepcopy(fn)
 
     class T(ast.NodeTransformer):
+        def visit_AugAssign(self, n):
+            self.generic_visit(n)
+            # xs += [a, b]  extends the list in place: xs.append(a); xs.append(b)
+            if isinstance(n.op, ast.Add) and isinstance(n.value, ast.List) and n.value.elts and isinstance(n.target, (ast.Name, ast.Attribute, ast.Subscript)) \
+                    and not any(isinstance(e, ast.Starred) for e in n.value.elts):
+                out = []
+                for e in n.value.elts:
+                    recv = copy.deepcopy(n.target)
+                    for x in ast.walk(recv):
+                        if hasattr(x, 'ctx'):
+                            x.ctx = ast.Load()
+                    st = ast.Expr(value=ast.Call(func=ast.Attribute(value=recv, attr='append', ctx=ast.Load()), args=[e], keywords=[]))
+                    out.append(ast.copy_location(st, n))
+                return out
+            return n
+
         def visit_Assign(self, n):
             self.generic_visit(n)
             if len(n.targets) == 1 and isinstance(n.targets[0], (ast.Name, ast.Attribute, ast.Subscript)) and isinstance(n.value, ast.BinOp) \
